@@ -37,10 +37,14 @@ func (u *UseCase) UpdateTx(ctx context.Context, oldTxId, newTxId string, filter 
 		freeNodes = make([]*core.Node[model.File], 0, tx.Len())
 	)
 	defer func() {
+		// runs after the all-store has been unlocked (or was never locked): unlinking
+		// changes its lists, which ReadUncommitted readers traverse
+		u.allStore.Lock()
 		for _, n := range freeNodes {
 			link := n.DeleteLink()
 			u.nodePool.Release(link, n)
 		}
+		u.allStore.Unlock()
 		deleteFiles = append(deleteFiles, files...)
 	}()
 
